@@ -44,7 +44,9 @@ type wireLog struct {
 	arrived chan struct{}
 }
 
-func newWireLog() *wireLog { return &wireLog{idOf: map[string]string{}, arrived: make(chan struct{}, 4096)} }
+func newWireLog() *wireLog {
+	return &wireLog{idOf: map[string]string{}, arrived: make(chan struct{}, 4096)}
+}
 
 type rpcMsg struct {
 	ID     json.RawMessage `json:"id"`
